@@ -418,7 +418,8 @@ def run_ds(cfg, choose):
     rec = dict(cfg)
     rec.update({'kind': 'ds', 'events': sched.events, 'delivered': delivered, 'end': end,
                 'alive': len(alive), 'deadlock': bool(sched.deadlock), 'nback': nev,
-                'len_ok': bool(len_ok), 'backend': 't', 'controlled': True})
+                'len_ok': bool(len_ok), 'backend': 't', 'controlled': True,
+                'shape': 'range', 'seq': []})
     return rec, sched
 
 
@@ -442,3 +443,96 @@ def ds_configs(max_n, ws, bufs):
                             out.append({'api': api, 'n': n, 'buf': buf, 'w': w, 'fn_fail': fn_fail,
                                         'fail_kind': kind, 'cfe': cfe, 'stop': stop, 'stop_k': k})
     return out
+
+
+def run_shared(cfg, choose):
+    """Dataset level, the pool workers index a STRUCTURED pipeline (cfg['prog'],
+    an API term of the pipeline family) that they share: every source line of
+    lazy_dataset/core.py is a scheduling point.  cfg['seq'] (what the plain
+    sequential pipeline delivers, coded) is taken first, without any pool.
+    Returns (None, None) when the pipeline cannot be consumed this way."""
+    import json
+    import warnings
+    import lazy_dataset.core as core
+    from .build import build
+    from .values import to_json
+    with warnings.catch_warnings():
+        warnings.simplefilter('ignore')
+        try:
+            inner = build(cfg['prog'])
+            plain = [json.dumps(to_json(x), sort_keys=True) for x in inner]
+            n_plain = len(inner)
+            # a worker pool prefetch reads its input by index: an input that
+            # does not offer that is refused (not a transparency question)
+            if cfg['api'] == 'prefetch':
+                if inner.indexable is not True:
+                    return None, None
+                # ... and whether reading by index agrees with iterating is
+                # property C02 (known finding S14), not a question of schedules
+                byidx = [json.dumps(to_json(inner[i]), sort_keys=True) for i in range(n_plain)]
+                if byidx != plain:
+                    return None, None
+        except Exception:
+            return None, None
+    codes = {}
+    for j in plain:
+        codes.setdefault(j, len(codes) + 1)
+
+    def vcode(x):
+        return codes.get(json.dumps(to_json(x), sort_keys=True), 0)
+    cfg = dict(cfg, n=len(plain), fn_fail=[], fail_kind='filter', cfe=0)
+    ctl = detsched.Controlled(choose, line_files=(core.__file__,))
+    with ctl as sched, warnings.catch_warnings():
+        warnings.simplefilter('ignore')
+        sched.item_code = lambda item: -1
+        sched.max_events = 20000
+
+        def fn(x):
+            c = vcode(x)
+            sched.point('call')
+            sched.log('call', c)
+            sched.point('ret')
+            sched.log('ret', c, 1)
+            return x
+        delivered = []
+        end = 'running'
+        len_ok = True
+        try:
+            fresh = build(cfg['prog'])
+            if cfg['api'] == 'prefetch':
+                ds = fresh.map(fn).prefetch(cfg['w'], cfg['buf'])
+            else:
+                ds = fresh.map(fn, num_workers=cfg['w'], buffer_size=cfg['buf'])
+            len_ok = len(ds) == n_plain
+            gen = iter(ds)
+            if cfg['stop'] == 'close' and cfg['stop_k'] == 0:
+                gen.close()
+                end = 'closed'
+            else:
+                while True:
+                    try:
+                        item = next(gen)
+                    except StopIteration:
+                        end = 'returned'
+                        break
+                    sched.point('yield')
+                    delivered.append(vcode(item))
+                    sched.log('yield', vcode(item))
+                    if cfg['stop'] == 'close' and len(delivered) == cfg['stop_k']:
+                        sched.log('close')
+                        gen.close()
+                        end = 'closed'
+                        break
+        except Abort:
+            end = sched.abort_reason
+        except BaseException as e:
+            end = 'raised_other_' + type(e).__name__
+        nev = len(sched.events)
+        sched.events.append({'th': 'C', 'op': 'back', 'a': -1, 'b': -1})
+        alive = sched.idle_until_quiescent() if end not in ('deadlock', 'diverged') else []
+    rec = dict(cfg)
+    rec.update({'kind': 'ds', 'events': sched.events, 'delivered': delivered, 'end': end,
+                'alive': len(alive), 'deadlock': bool(sched.deadlock), 'nback': nev,
+                'len_ok': bool(len_ok), 'backend': 't', 'controlled': True,
+                'shape': 'pipeline', 'seq': [codes[j] for j in plain]})
+    return rec, sched
